@@ -31,6 +31,16 @@ theorem add_other (w : World) (i k : Nat) (e : Elt) (h : k ≠ i) : (add cfg w i
   · simp only []; rw [invalidate_other _ _ _ h]; exact h1
   · exact h1
 
+theorem addLines_other (w : World) (i k : Nat) (es : List Elt) (h : k ≠ i) : (addLines cfg w i es).1.insts[k]? = w.insts[k]? := by
+  unfold addLines
+  cases hi : w.insts[i]? with
+  | none => rfl
+  | some inst =>
+    simp only []
+    split
+    · simp only []; rw [invalidate_other _ _ _ h]; simp [set_other _ _ _ _ h]
+    · simp [set_other _ _ _ _ h]
+
 theorem remove_other (w : World) (i k : Nat) (nm : String) (h : k ≠ i) : (remove cfg w i nm).1.insts[k]? = w.insts[k]? := by
   unfold remove
   cases hi : w.insts[i]? with
@@ -159,7 +169,7 @@ theorem lookup_mem {α : Type} (l : List (String × α)) (s : String) (k : α) (
       exact List.mem_cons_of_mem _ (ih h)
 
 /-- with the three flags set, admissibility is just: public operation -/
-theorem runOK_of_flags (cfg : Config) (hadd : cfg.addInvalidates = true) (hrem : cfg.removeInvalidates = true)
+theorem runOK_of_flags (cfg : Config) (hadd : cfg.addInvalidates = true) (hmulti : cfg.addMultiInvalidates = true) (hrem : cfg.removeInvalidates = true)
     (hdet : cfg.overrideDetaches = true) (ops : List Op) (w : World)
     (hpub : ∀ op ∈ ops, op.isPublic) (hok : NoRaise cfg w ops) : RunOK cfg w ops := by
   induction ops generalizing w with
